@@ -36,6 +36,7 @@ type Obs struct {
 
 func modelInt(v string) (*big.Int, bool) {
 	v = strings.TrimSpace(v)
+	v = strings.ReplaceAll(strings.ReplaceAll(v, "( ", "("), " )", ")")
 	if strings.HasPrefix(v, "(- ") {
 		x, ok := new(big.Int).SetString(strings.TrimSuffix(strings.TrimPrefix(v, "(- "), ")"), 10)
 		if ok {
@@ -194,6 +195,8 @@ func queryObservations(o *Obligation, obs []Obs, solver string) map[int]string {
 	return res
 }
 
+var replayDB *SpecDB
+
 // goExpr translates a contract expression to Go source over *big.Int / bool.
 func goExpr(e Expr, vars map[string]string) (string, bool) {
 	switch x := e.(type) {
@@ -219,6 +222,12 @@ func goExpr(e Expr, vars map[string]string) (string, bool) {
 		}
 		return "", false
 	case *EBin:
+		if n, ok := x.R.(*EName); ok && n.Name == "nil" && (x.Op == "==" || x.Op == "!=") {
+			if a, ok := goExpr(x.L, vars); ok {
+				return "(" + a + " " + x.Op + " nil)", true
+			}
+			return "", false
+		}
 		a, ok1 := goExpr(x.L, vars)
 		b, ok2 := goExpr(x.R, vars)
 		if !ok1 || !ok2 {
@@ -280,6 +289,19 @@ func goExpr(e Expr, vars map[string]string) (string, bool) {
 		}
 		return a + "[int(tb(" + i + ").Int64())]", true
 	case *ECall:
+		if replayDB != nil {
+			if d, ok := replayDB.Defines[x.Fn]; ok && !d.Rec && len(d.Params) == len(x.Args) {
+				nv := map[string]string{}
+				for i, p := range d.Params {
+					a, ok := goExpr(x.Args[i], vars)
+					if !ok {
+						return "", false
+					}
+					nv[p] = a
+				}
+				return goExpr(d.Body, nv)
+			}
+		}
 		if x.Fn == "len" && len(x.Args) == 1 {
 			a, ok := goExpr(x.Args[0], vars)
 			if ok {
@@ -363,6 +385,7 @@ func Replay(g *Gen, repo, replayDir, prop string, o *Obligation, results []*Func
 		"verifier":   o.Output,
 	}
 	rr := ReplayResult{}
+	replayDB = g.db
 	finish := func(note string) ReplayResult {
 		content["replay"] = note
 		content["reproduced_on_real_code"] = rr.Reproduced
@@ -483,15 +506,14 @@ func genReplayTest(g *Gen, fe *FnEnc, o *Obligation, obs []Obs, vals map[int]str
 		}
 		ts := types.TypeString(ob.Type, q)
 		collectImports(ob.Type, pkg, imports)
-		if n.Sign() < 0 {
-			fmt.Fprintf(&body, "\t%s = %s(%s)\n", ob.GoLval, ts, n.String())
-		} else {
-			w, signed, _ := intInfo(ob.Type)
+		if w, signed, ok := intInfo(ob.Type); ok {
+			// bring the model value into the type's range (unconstrained locations may carry any integer)
+			n = new(big.Int).Mod(n, pow2(w))
 			if signed && n.Cmp(pow2(w-1)) >= 0 {
 				n = new(big.Int).Sub(n, pow2(w))
 			}
-			fmt.Fprintf(&body, "\t%s = %s(%s)\n", ob.GoLval, ts, n.String())
 		}
+		fmt.Fprintf(&body, "\t%s = %s(%s)\n", ob.GoLval, ts, n.String())
 	}
 	for imp := range imports {
 		fmt.Fprintf(&b, "\t%q\n", imp)
@@ -511,6 +533,24 @@ func genReplayTest(g *Gen, fe *FnEnc, o *Obligation, obs []Obs, vals map[int]str
 	}
 	b.WriteString("func TestZZVerifReplay(t *testing.T) {\n")
 	b.WriteString(body.String())
+	{
+		pvars := map[string]string{}
+		poff := 0
+		if fn.Signature.Recv() != nil {
+			poff = 1
+			if fe.ct.RecvName != "" {
+				pvars[fe.ct.RecvName] = argNames[0]
+			}
+		}
+		for i, n := range fe.ct.Params {
+			pvars[n] = argNames[i+poff]
+		}
+		for _, r := range fe.ct.Requires {
+			if ge, ok := goExprErr(r.E, pvars, fe.ct, fn.Signature.Results(), nil); ok {
+				fmt.Fprintf(&b, "\tif !(%s) { fmt.Println(\"REPLAY-NOT-REPRODUCED: model does not satisfy precondition:\", %q); return }\n", ge, r.Src)
+			}
+		}
+	}
 	b.WriteString("\tpanicked := false\n\tvar pv interface{}\n")
 	for i, rn := range resNames {
 		collectImports(fn.Signature.Results().At(i).Type(), pkg, imports)
